@@ -265,7 +265,7 @@ func init() {
 	register("C12", func(r *Result, rng *rand.Rand, tier string) {
 		n := 300
 		if tier == "thorough" {
-			n = 20000
+			n = 15000
 		} else if tier == "search" {
 			n = 2000
 		}
